@@ -143,4 +143,133 @@ theorem wfBinTape_iff (input : Bytes) (toks : Tape) : wfBinTape input toks = tru
     simp only [List.append_nil, Nat.zero_add] at this
     simp [wfBinTape, this, wfGo]
 
+/-! ## index form -/
+
+/-- index form of `Items`: every container start inside a sequence of complete items (sitting at
+tape index `s`) points to a later `End` inside the sequence that points back to it. -/
+theorem Items.start_link {s : Nat} {seg : Tape} (h : Items s seg) :
+    ∀ (k e : Nat), (seg[k]? = some (.array e) ∨ seg[k]? = some (.object e)) →
+      s + k ≠ 0 ∧ s + k < e ∧ e < s + seg.length ∧ seg[e - s]? = some (.end_ (s + k)) := by
+  induction h with
+  | nil s => intro k e h; simp at h
+  | plain s t rest ht _ ih =>
+    intro k e h
+    cases k with
+    | zero => rcases h with h | h <;> (simp at h; subst h; simp [BTok.isPlain] at ht)
+    | succ k' =>
+      simp only [List.getElem?_cons_succ] at h
+      obtain ⟨h1, h2, h3, h4⟩ := ih k' e h
+      refine ⟨by omega, by omega, by simp; omega, ?_⟩
+      have : e - s = (e - (s + 1)) + 1 := by omega
+      rw [this, List.getElem?_cons_succ, h4]
+      congr 2; omega
+  | cont s e0 t inner rest hs ht he _ _ ihi ihr =>
+    intro k e h
+    cases k with
+    | zero =>
+      have hee : e = e0 := by
+        rcases ht with rfl | rfl <;> rcases h with h | h <;> simp at h <;> exact h.symm
+      subst hee
+      refine ⟨by omega, by omega, by simp; omega, ?_⟩
+      have : e - s = inner.length + 1 := by omega
+      rw [this, List.getElem?_cons_succ, List.getElem?_append_right (Nat.le_refl _)]
+      simp
+    | succ k' =>
+      simp only [List.getElem?_cons_succ] at h
+      rcases Nat.lt_trichotomy k' inner.length with hlt | heq | hgt
+      · rw [List.getElem?_append_left hlt] at h
+        obtain ⟨h1, h2, h3, h4⟩ := ihi k' e h
+        refine ⟨by omega, by omega, by simp; omega, ?_⟩
+        have : e - s = (e - (s + 1)) + 1 := by omega
+        rw [this, List.getElem?_cons_succ, List.getElem?_append_left (by omega), h4]
+        congr 2; omega
+      · subst heq
+        rw [List.getElem?_append_right (Nat.le_refl _)] at h
+        simp at h
+      · rw [List.getElem?_append_right (by omega)] at h
+        have hk : k' - inner.length = (k' - inner.length - 1) + 1 := by omega
+        rw [hk, List.getElem?_cons_succ] at h
+        obtain ⟨h1, h2, h3, h4⟩ := ihr (k' - inner.length - 1) e h
+        refine ⟨by omega, by omega, by simp; omega, ?_⟩
+        have : e - s = (e - s - 1) + 1 := by omega
+        rw [this, List.getElem?_cons_succ, List.getElem?_append_right (by omega)]
+        have : e - s - 1 - inner.length = (e - (e0 + 1)) + 1 := by omega
+        rw [this, List.getElem?_cons_succ, h4]
+        congr 2; omega
+
+/-- `WfBinTape` in index form (start tokens): every `Array`/`Object` at index `i` has `i ≠ 0`, an
+end index `e > i` inside the tape, and `toks[e] = End i`. -/
+theorem WfBinTape.start_link {toks : Tape} (h : WfBinTape toks) (i e : Nat)
+    (hs : toks[i]? = some (.array e) ∨ toks[i]? = some (.object e)) :
+    i ≠ 0 ∧ i < e ∧ e < toks.length ∧ toks[e]? = some (.end_ i) := by
+  have := Items.start_link h i e hs
+  simpa using this
+
+/-- index form of `Items`: every `End` inside a sequence of complete items points back to a
+container start inside the sequence that points to it. -/
+theorem Items.end_link {s : Nat} {seg : Tape} (h : Items s seg) :
+    ∀ (j i : Nat), seg[j]? = some (.end_ i) →
+      s ≤ i ∧ i ≠ 0 ∧ i < s + j ∧
+        (seg[i - s]? = some (.array (s + j)) ∨ seg[i - s]? = some (.object (s + j))) := by
+  induction h with
+  | nil s => intro j i h; simp at h
+  | plain s t rest ht _ ih =>
+    intro j i h
+    cases j with
+    | zero => simp at h; subst h; simp [BTok.isPlain] at ht
+    | succ j' =>
+      simp only [List.getElem?_cons_succ] at h
+      obtain ⟨h1, h2, h3, h4⟩ := ih j' i h
+      refine ⟨by omega, h2, by omega, ?_⟩
+      have : i - s = (i - (s + 1)) + 1 := by omega
+      rw [this, List.getElem?_cons_succ]
+      have e : s + (j' + 1) = s + 1 + j' := by omega
+      rw [e]; exact h4
+  | cont s e0 t inner rest hs ht he _ _ ihi ihr =>
+    intro j i h
+    cases j with
+    | zero => rcases ht with rfl | rfl <;> simp at h
+    | succ j' =>
+      simp only [List.getElem?_cons_succ] at h
+      rcases Nat.lt_trichotomy j' inner.length with hlt | heq | hgt
+      · rw [List.getElem?_append_left hlt] at h
+        obtain ⟨h1, h2, h3, h4⟩ := ihi j' i h
+        refine ⟨by omega, h2, by omega, ?_⟩
+        have : i - s = (i - (s + 1)) + 1 := by omega
+        rw [this, List.getElem?_cons_succ]
+        have hb : i - (s + 1) < inner.length := by
+          rcases h4 with h4 | h4 <;> exact
+            (by
+              rcases Nat.lt_or_ge (i - (s + 1)) inner.length with hh | hh
+              · exact hh
+              · simp [List.getElem?_eq_none hh] at h4)
+        rw [List.getElem?_append_left hb]
+        have e : s + (j' + 1) = s + 1 + j' := by omega
+        rw [e]; exact h4
+      · subst heq
+        rw [List.getElem?_append_right (Nat.le_refl _)] at h
+        simp at h; subst h
+        refine ⟨Nat.le_refl _, hs, by omega, ?_⟩
+        have e : s + (inner.length + 1) = e0 := by omega
+        rw [e]; simp
+        rcases ht with rfl | rfl <;> simp
+      · rw [List.getElem?_append_right (by omega)] at h
+        have hk : j' - inner.length = (j' - inner.length - 1) + 1 := by omega
+        rw [hk, List.getElem?_cons_succ] at h
+        obtain ⟨h1, h2, h3, h4⟩ := ihr (j' - inner.length - 1) i h
+        refine ⟨by omega, h2, by omega, ?_⟩
+        have : i - s = (i - s - 1) + 1 := by omega
+        rw [this, List.getElem?_cons_succ, List.getElem?_append_right (by omega)]
+        have : i - s - 1 - inner.length = (i - (e0 + 1)) + 1 := by omega
+        rw [this, List.getElem?_cons_succ]
+        have e : s + (j' + 1) = e0 + 1 + (j' - inner.length - 1) := by omega
+        rw [e]; exact h4
+
+/-- `WfBinTape` in index form (`End` tokens): every `End i` at index `j` has `i ≠ 0`, `i < j`, and
+`toks[i]` is the `Array`/`Object` whose end is `j`. -/
+theorem WfBinTape.end_link {toks : Tape} (h : WfBinTape toks) (j i : Nat) (hs : toks[j]? = some (.end_ i)) :
+    i ≠ 0 ∧ i < j ∧ (toks[i]? = some (.array j) ∨ toks[i]? = some (.object j)) := by
+  have := Items.end_link h j i hs
+  simpa using this.2
+
 end Jomini.BinTape
